@@ -103,6 +103,14 @@ def run(ctx, res):
             res.violations.append({'key': None, 'sig': 'rdflib-bnodes', 'what': 'the rdflib store holds %s distinct blank nodes, the set %s' % (o.get('rdflib_bnodes'), o.get('expected_bnodes')),
                                    'replay': c if len(c['sources'][0]['rows']) < 1000 else {'note': 'large generated case'}})
             continue
+        if o['rdflib_store'] != exp and 'rdflib-normalises-literals' in known:
+            # rdflib rewrites the lexical form of literals typed with an XSD datatype when it can convert them (and "false" for ill-typed booleans)
+            def untyped(qs):
+                import re
+                return sorted([q[0], q[1], re.sub(r'^".*"\^\^<http://www\.w3\.org/2001/XMLSchema#\w+>$', '"?"^^xsd', q[2], flags=re.S), q[3]] for q in qs)
+            if untyped(o['rdflib_store']) == untyped(exp):
+                res.violations.append({'key': 'rdflib-normalises-literals', 'what': 'recorded finding reproduced', 'replay': None})
+                continue
         if o['rdflib_store'] != exp:
             res.violations.append({'key': None, 'sig': 'rdflib-store', 'what': 'the store behind the returned rdflib Graph differs from the set: only store %r, only set %r'
                                    % ([q for q in o['rdflib_store'] if q not in exp][:2], [q for q in exp if q not in o['rdflib_store']][:2]), 'replay': c})
